@@ -748,7 +748,7 @@ func (fx *FnCtx) rangeNext(st *State, x *ssa.Next) {
 	// exhausted: every present key has been visited
 	pk, _ := mapKeys(mt)
 	p := st.heapGet(pk, "(Array Int (Array Int Bool))")
-	fx.sol.Assert(tImp(tNot(ok), "(forall ((kk Int)) (! (=> "+tAnd(tNot(tEq(it.m.S, "0")), "(select (select "+p+" "+it.m.S+") kk)")+" (select "+row+" kk)) :pattern ((select "+row+" kk))))"))
+	fx.sol.Assert(tImp(tNot(ok), "(forall ((kk Int)) (! (=> "+tAnd(tNot(tEq(it.m.S, "0")), "(select (select "+p+" "+it.m.S+") kk)")+" (select "+row+" kk)) :pattern ((select (select "+p+" "+it.m.S+") kk))))"))
 	st.heapSet("I|seen", "(Array Int (Array Int Bool))", tIte(ok, tSto(seen, it.id, tSto(row, kt, "true")), seen))
 	v := st.loadLoc(fx.mapValLoc(mt, it.m.S, kt))
 	st.env[x] = &Val{K: KTuple, T: x.Type(), Fs: []*Val{mkBool(ok), k, v}}
